@@ -31,7 +31,7 @@ Definition winner_statistics_def (t : trial) : Z * Z * Z * Z :=
   end.
 
 Definition mean_duration (ds : list Z) : Z :=
-  match ds with [] => empty_duration | _ => Z.quot (sumZ ds) (Z.of_nat (length ds)) end.
+  match ds with [] => empty_duration | d :: ds' => Z.quot (sumZ (d :: ds')) (Z.of_nat (length (d :: ds'))) end.
 
 (* ---------- trial ---------- *)
 
@@ -124,7 +124,7 @@ Theorem t_avg_epoch_duration_spec (t : trial) :
   t_avg_epoch_duration t = mean_duration (map g_duration (t_gens t)).
 Proof.
   unfold t_avg_epoch_duration, mean_duration, len. rewrite sum_durations_spec.
-  destruct (t_gens t) as [|g gs]; [reflexivity|]. rewrite map_length. reflexivity.
+  destruct (t_gens t) as [|g gs]; [reflexivity|]. cbn [map]. cbn [length]. rewrite map_length. reflexivity.
 Qed.
 
 Theorem g_champion_complexity_spec (g : generation) :
@@ -179,7 +179,7 @@ Theorem e_avg_trial_duration_spec (e : list trial) :
   e_avg_trial_duration e = mean_duration (map t_duration e).
 Proof.
   unfold e_avg_trial_duration, mean_duration. rewrite sum_trial_durations_spec.
-  destruct e as [|t e]; [reflexivity|]. rewrite map_length. reflexivity.
+  destruct e as [|t e]; [reflexivity|]. cbn [map]. cbn [length]. rewrite map_length. reflexivity.
 Qed.
 
 Lemma sum_epoch_durations_spec (e : list trial) : forall acc,
@@ -192,7 +192,7 @@ Theorem e_avg_epoch_duration_spec (e : list trial) :
   e_avg_epoch_duration e = mean_duration (map (fun t => mean_duration (map g_duration (t_gens t))) e).
 Proof.
   unfold e_avg_epoch_duration, mean_duration. rewrite sum_epoch_durations_spec.
-  destruct e as [|t e]; [reflexivity|]. rewrite map_length. reflexivity.
+  destruct e as [|t e]; [reflexivity|]. cbn [map]. cbn [length]. rewrite map_length. reflexivity.
 Qed.
 
 (* ---------- experiment: winner totals ---------- *)
